@@ -119,4 +119,14 @@ CLAIMED['C10'] = {
     'technique': 'contract-based deductive verification (symbolic execution with call-site clauses, z3; syntactic frames) + bounded oracle against an independent specification of the primitives',
 }
 
+CLAIMED['C11'] = {
+    'category': 'proof',
+    'text': 'Function-level proof on the real cmd_run with symbolic configuration and uninterpreted callees: loop invariant all_txns == concatenation of the included '
+            'sources\' parse calls (each with that source\'s path, format spec, name, decimal separator and the configured rules / transforms / supplemental data), '
+            'call-site clauses for analysis, views and the selected renderer in all four output formats; load_config\'s rules-file selection, rule-mode validation and '
+            'view loading proved. Process-level behaviour is exercised by the labelled bounded oracle (real runs on generated budget directories).',
+    'level_note': _BASE_NOTE + ' argparse, YAML, os.path and process start-up are outside the verified text (A10); callees are uninterpreted deterministic functions of their arguments.',
+    'technique': 'contract-based deductive verification (loop invariant + call-site argument clauses on cmd_run / load_config, z3) + bounded oracle running tally up on generated budgets',
+}
+
 NOT_APPLICABLE = {}
